@@ -192,6 +192,9 @@ func (prop) Run(line string) core.Outcome {
 	if o, ok := runVia(f); ok {
 		return o
 	}
+	if f[0] == "cfsite" && len(f) == 8 {
+		return runSite(line, f)
+	}
 	switch {
 	case f[0] == "host" && len(f) == 3:
 		l, e1 := parseList(f[1])
